@@ -106,6 +106,7 @@ type Record struct {
 	Sample     json.RawMessage   `json:"sample,omitempty"`
 	Sets       map[string]string `json:"sets,omitempty"` // name -> value to be counted distinct in the parent
 	Inconcl    string            `json:"inconclusive,omitempty"`
+	Skipped    string            `json:"skipped,omitempty"`
 }
 
 // Violation is one refuting observation.
@@ -184,6 +185,13 @@ func (c *Ctx) Sample(v interface{}) {
 	}
 }
 
+// Skip marks a case that could not be set up (a helper tool refused the generated input, a helper process did not
+// start, the sandbox lacks something): nothing was observed about the code under test. Skipped cases are counted and
+// shown; only if they exceed 5% of the case list (or 50 cases, whichever is larger) is the whole run inconclusive.
+func (c *Ctx) Skip(format string, a ...interface{}) {
+	c.rec.Skipped = fmt.Sprintf(format, a...)
+}
+
 // Inconclusive marks the case as not decided.
 func (c *Ctx) Inconclusive(format string, a ...interface{}) {
 	c.rec.Inconcl = fmt.Sprintf(format, a...)
@@ -210,6 +218,7 @@ type Parent struct {
 	Counters   map[string]int64
 	Sets       map[string]map[string]struct{}
 	Inconcl    []string
+	Skipped    []string
 	Extra      map[string]interface{}
 }
 
@@ -386,6 +395,9 @@ func parentMain(cfg *Config, tier string, seed int64, replay string) int {
 		if r.Inconcl != "" {
 			p.Inconcl = append(p.Inconcl, fmt.Sprintf("case %d (%s): %s", r.Case, r.Info, r.Inconcl))
 		}
+		if r.Skipped != "" {
+			p.Skipped = append(p.Skipped, fmt.Sprintf("case %d: %s", r.Case, r.Skipped))
+		}
 	}
 	// samples: spread over the case list, prefer non-trivial ones
 	step := len(p.Records)/6 + 1
@@ -454,6 +466,8 @@ func parentMain(cfg *Config, tier string, seed int64, replay string) int {
 		"watchdog_firings":                      atomic.LoadInt32(&stallCount),
 		"batches_skipped_after_too_many_stalls": atomic.LoadInt32(&skippedBatches),
 		"inconclusive_cases":                    len(p.Inconcl),
+		"skipped_cases":                         len(p.Skipped),
+		"skipped_reasons":                       firstN(p.Skipped, 5),
 		"counters":                              p.Counters,
 		"known_findings_seen":                   knownSeen,
 	}
@@ -540,6 +554,12 @@ func parentMain(cfg *Config, tier string, seed int64, replay string) int {
 	}
 	if atomic.LoadInt32(&skippedBatches) > 0 {
 		p.Inconcl = append(p.Inconcl, fmt.Sprintf("%d batches not run after %d watchdog firings", skippedBatches, stallCount))
+	}
+	if lim := max(50, len(p.Records)/20); len(p.Skipped) > lim {
+		p.Inconcl = append(p.Inconcl, fmt.Sprintf("%d cases could not be set up (limit %d), first: %s", len(p.Skipped), lim, p.Skipped[0]))
+	}
+	if len(p.Skipped) > 0 {
+		fmt.Printf("  skipped=%d (could not be set up; first: %s)\n", len(p.Skipped), firstLine(p.Skipped[0]))
 	}
 	if len(p.Inconcl) > 0 {
 		for i, s := range p.Inconcl {
@@ -748,6 +768,13 @@ func panicOutsideDesync(stderr string) bool {
 		block = block[:e]
 	}
 	return !strings.Contains(block, "github.com/folbricht/desync") && strings.Contains(block, "verif/")
+}
+
+func firstN(s []string, n int) []string {
+	if len(s) > n {
+		return s[:n]
+	}
+	return s
 }
 
 func firstLine(s string) string {
